@@ -266,6 +266,84 @@ fn run(case: &Value, stats: &mut Stats) -> RunResult<()> {
                     unflushed = false;
                 }
             }
+            "race_drop_open" => {
+                // The last holder goes away on one controlled thread while another controlled thread
+                // opens the directory: the seeded scheduler decides where in the teardown (between the
+                // drops of the instance's fields: layout, metadata file, mapping, data file) the
+                // opener runs. Refused => files untouched; admitted => exactly the flushed data.
+                if !h.holds() || !h.readers.is_empty() || !h.bg_release.is_empty() {
+                    continue;
+                }
+                let handles = std::mem::take(&mut h.handles);
+                let refs = std::mem::take(&mut h.region_refs);
+                h.regions.clear();
+                let min_len = us(op, "min_len");
+                let before = snapshot_files(&dir);
+                let result: std::sync::Arc<std::sync::Mutex<Option<Attempt>>> = std::sync::Arc::new(std::sync::Mutex::new(None));
+                let ctl: &'static crate::ctl::Ctl = &crate::hooks::CTL;
+                let strategy = match us(op, "strategy") % 3 {
+                    0 => crate::ctl::Strategy::Uniform,
+                    1 => crate::ctl::Strategy::Sticky(60),
+                    _ => crate::ctl::Strategy::Sticky(90),
+                };
+                rawdb::verif::set_pause_on_lock_drop(true);
+                ctl.begin(
+                    crate::ctl::CtlConfig { seed: op["seed"].as_u64().unwrap_or(1), strategy, early_fire: false, max_steps: 20_000, replay: None, plan: None },
+                    false,
+                );
+                let t0 = ctl.spawn("dropper", move || {
+                    drop(handles);
+                    drop(refs);
+                });
+                let (res2, dir2) = (result.clone(), dir.clone());
+                let t1 = ctl.spawn("opener", move || {
+                    let a = match Database::open_with_min_len(&dir2, min_len) {
+                        Ok(db) => Attempt::Opened(summarize(&db)),
+                        Err(rawdb::Error::TryLock(_)) => Attempt::Locked,
+                        Err(e) => Attempt::Other(e.to_string()),
+                    };
+                    *res2.lock().unwrap() = Some(a);
+                });
+                let (verdict, cstats, _) = ctl.run();
+                rawdb::verif::set_pause_on_lock_drop(false);
+                if !matches!(verdict, crate::ctl::Verdict::Done) {
+                    std::mem::forget(t0);
+                    std::mem::forget(t1);
+                    return Err(Fail::Harness(format!("teardown race: controller verdict {verdict:?}")));
+                }
+                let _ = t0.join();
+                let _ = t1.join();
+                stats.add("sched.points", cstats.steps as u64);
+                stats.seen("interleavings", cstats.trace_hash);
+                stats.add("probe.teardown_pause_points", cstats.pauses_hit.values().sum::<usize>() as u64);
+                stats.bump("fault.opener_during_teardown");
+                let a = result.lock().unwrap().take();
+                match a {
+                    Some(Attempt::Locked) => {
+                        stats.bump("probe.refused_during_teardown");
+                        let after = snapshot_files(&dir);
+                        if after != before {
+                            return Err(viol(
+                                "refused-open-modified-files/during-teardown",
+                                format!("step {step}: an open (min_len {min_len}) that was refused while the last holder was being dropped changed the files: data {}->{} bytes, regions {}->{} bytes", before.0, after.0, before.2, after.2),
+                            ));
+                        }
+                    }
+                    Some(Attempt::Opened(seen)) => {
+                        stats.bump("probe.opened_during_or_after_teardown");
+                        if !unflushed && seen != flushed {
+                            return Err(viol("reopen-does-not-see-flushed-data/during-teardown", format!("step {step}: opener sees {:?}, flushed was {:?}", seen, flushed)));
+                        }
+                    }
+                    Some(Attempt::Other(e)) => return Err(viol("second-open-wrong-error/during-teardown", format!("step {step}: expected the lock error or success, got: {e}"))),
+                    None => return Err(Fail::Harness("teardown race: opener left no result".into())),
+                }
+                if unflushed {
+                    let probe = Database::open(&dir).map_err(|e| viol("open-refused-although-free", format!("step {step}: {e}")))?;
+                    flushed = summarize(&probe);
+                    unflushed = false;
+                }
+            }
             "try_thread" | "try_child" => {
                 let min_len = us(op, "min_len");
                 let before = snapshot_files(&dir);
@@ -337,7 +415,7 @@ impl Check for C18Check {
         let mut ops = vec![json!({"op":"open","min_len":*rng.pick(&[0usize, 0, 4096, 2 << 20])})];
         let min_lens = [0usize, 0, 4096, 1 << 20, (1 << 20) + 4096, 5 << 20];
         for _ in 0..rng.range(4, 14) {
-            let op = match rng.below(14) {
+            let op = match rng.below(15) {
                 0 => json!({"op":"clone"}),
                 1 | 2 => json!({"op":"write_flush","r":rng.below(4),"len":*rng.pick(&[1usize, 100, 5000, 70000]),"flush":rng.chance(3, 4)}),
                 3 => json!({"op":"region_db"}),
@@ -349,6 +427,7 @@ impl Check for C18Check {
                 9 => json!({"op":"drop_all","min_len":*rng.pick(&min_lens)}),
                 10 | 11 => json!({"op":"try_thread","min_len":*rng.pick(&min_lens)}),
                 12 => json!({"op":"try_child","min_len":*rng.pick(&min_lens)}),
+                _ if rng.chance(1, 2) => json!({"op":"race_drop_open","min_len":*rng.pick(&min_lens),"seed":rng.next(),"strategy":rng.below(3)}),
                 _ => json!({"op":"open","min_len":*rng.pick(&min_lens)}),
             };
             ops.push(op);
@@ -368,7 +447,7 @@ impl Check for C18Check {
         r
     }
     fn rule(&self) -> String {
-        "seeded sequences over one directory: the holder opens (open / open_with_min_len), clones handles, writes+flushes, takes region-derived database references (region.db()), readers and background tasks (run_bg with a task blocked until released), drops any of them in any order; in between, other threads and CHILD PROCESSES (the simulator binary re-executed with `try-open`) attempt open_with_min_len with lengths below and above the current size. While any handle, region-derived reference, reader or unfinished background task exists the attempt must fail with the lock error and size+content hash of `data` and `regions` must be unchanged; once the last holder is gone the attempt must succeed and see exactly the flushed names/lengths/bytes. The last drop with a live background task is done on another thread while a child process tries to open. non-trivial = at least one refused or one successful second open".into()
+        "seeded sequences over one directory: the holder opens (open / open_with_min_len), clones handles, writes+flushes, takes region-derived database references (region.db()), readers and background tasks (run_bg with a task blocked until released), drops any of them in any order; in between, other threads and CHILD PROCESSES (the simulator binary re-executed with `try-open`) attempt open_with_min_len with lengths below and above the current size. While any handle, region-derived reference, reader or unfinished background task exists the attempt must fail with the lock error and size+content hash of `data` and `regions` must be unchanged; once the last holder is gone the attempt must succeed and see exactly the flushed names/lengths/bytes. The last drop with a live background task is done on another thread while a child process tries to open. Teardown race: the last handles are dropped on one controlled thread while a second controlled thread opens; the seeded scheduler decides where between the field drops of the instance (pause point after each lock-protected field, teardown seam of the lock shim) the opener runs - refused => both files unchanged, admitted => exactly the flushed data. non-trivial = at least one refused or one successful second open".into()
     }
     fn assumptions(&self) -> Vec<String> {
         vec![
@@ -387,9 +466,11 @@ impl Check for C18Check {
             "probe.reader_held",
             "probe.region_derived_reference_held",
             "probe.refused_while_bg_task_alive",
+            "probe.refused_during_teardown",
+            "probe.teardown_pause_points",
         ]
     }
     fn real_vs_stub(&self) -> Value {
-        json!({"real": ["rawdb", "flock on the host kernel", "child processes (fork/exec of the simulator binary)", "OS threads"], "simulated": ["the order of open/drop events (generated, executed synchronously)"]})
+        json!({"real": ["rawdb", "flock on the host kernel", "child processes (fork/exec of the simulator binary)", "OS threads"], "simulated": ["the order of open/drop events (generated, executed synchronously)", "the interleaving of the last drop with a concurrent open (controller, pause point after each field drop)"]})
     }
 }
